@@ -10,13 +10,40 @@ SH7 = '''if data, inL1 := cc.l1d.GetCacheLine(line); inL1 {
 							}
 						}
 					}'''
+SH8 = '''if data, inL1 := cc.l1d.GetCacheLine(line); inL1 {
+						next := r.ctx.Memory[int(line) : int(line)+len(data)]
+						l3base := comp.AlignedAddress(int32(line) - int32(line)%l3CacheLineSize)
+						if l3data, inL3 := r.l3.GetCacheLine(l3base); inL3 {
+							next = l3data[int(line)-int(l3base) : int(line)-int(l3base)+len(data)]
+						}
+						for j, v := range data {
+							if next[j] != v {
+								return "shared", fmt.Sprintf("cycle %d: core %d holds line %d Shared but byte %d differs from the next level", r.cycle, i, l, j)
+							}
+						}
+					}'''
+PRESS = '''// the last core pushes the L3 lines of the two explored lines out of the L3
+		{
+			one := xSeqs([]int{0}, 1, nil)
+			for _, a := range full {
+				for _, b := range one {
+					last := append([]xOp{{press: true}}, b...)
+					if cores == 2 {
+						scripts = append(scripts, [][]xOp{a, last})
+					} else {
+						scripts = append(scripts, [][]xOp{a, nil, last})
+					}
+				}
+			}
+		}'''
 V = {
     "mvp7-0": dict(pkg="mvp7_0", mkl3="", newcc="newCacheController(i, ctx, r.mmu, r.msi)", shared=SH7, final="for _, cc := range r.ccs {\n\t\tcc.export()\n\t}"),
     "mvp7-1": dict(pkg="mvp7_1", mkl3="", newcc="newCacheController(i, ctx, r.mmu, r.msi)", shared=SH7, final="for _, cc := range r.ccs {\n\t\tcc.export()\n\t}"),
-    "mvp8-0": dict(pkg="mvp8_0", mkl3="r.l3 = comp.NewLRUCache(l3CacheLineSize, l3CacheSize)", newcc="newCacheController(i, ctx, r.mmu, r.msi, r.l3)", shared="", final="for _, cc := range r.ccs {\n\t\tcc.writeBack()\n\t}\n\tfor _, line := range r.l3.Lines() {\n\t\tr.mmu.writeToMemory(line.Boundary[0], line.Data)\n\t}"),
+    "mvp8-0": dict(pkg="mvp8_0", mkl3="r.l3 = comp.NewLRUCache(l3CacheLineSize, l3CacheSize)", newcc="newCacheController(i, ctx, r.mmu, r.msi, r.l3)", shared=SH8, final="for _, cc := range r.ccs {\n\t\tcc.writeBack()\n\t}\n\tfor _, line := range r.l3.Lines() {\n\t\tr.mmu.writeToMemory(line.Boundary[0], line.Data)\n\t}"),
 }
 for v, p in V.items():
     s = t.replace("@PKG@", p["pkg"]).replace("@VARIANT@", v).replace("@CORES@", "2 and 3").replace("@LINE1@", "64")
+    s = s.replace("@MEMSIZE@", "8192" if v == "mvp8-0" else "512").replace("@PRESSURE@", PRESS if v == "mvp8-0" else "")
     s = s.replace("@MKL3@", p["mkl3"]).replace("@NEWCC@", p["newcc"]).replace("@SHAREDCHECK@", p["shared"]).replace("@FINALWB@", p["final"])
     open(os.path.join(D, "c06_explore_%s_test.go.txt" % v.replace("-", "_")), "w").write(s)
     print("wrote", v)
